@@ -98,6 +98,10 @@ def eval_case(case):
     ns = len(ref.st)
     for env in space.some_points(ref.st, case["points"], case["seed"]):
         full = ref.env(env)
+        # ONE prior State / Covariance object per filter and point, handed to every update below (all sensors, all readings): the
+        # reference is computed from the values put into it here
+        priors = {kf_: (ekf_.State(**{s: env[s] for s in ref.st}), ekf_.Covariance.from_data(np.array(case["P"], dtype=float)))
+                  for kf_, ekf_ in ekfs.items()}
         for key in sorted(ref.h):
             m = len(ref.readings(key))
             try:
@@ -135,8 +139,7 @@ def eval_case(case):
                     if kf is not None and float(nis) > kf * sqrt(2 * m) + m - 1e-6:
                         gated += 1
                         continue
-                    state = ekf.State(**{s: env[s] for s in ref.st})
-                    cov = ekf.Covariance.from_data(np.array(case["P"], dtype=float))
+                    state, cov = priors[kf]
                     reading = ekf.make_reading(key, **{r: zf[i] for i, r in enumerate(ref.readings(key))})
                     ekf.innovations.pop(key, None)
                     ekf.sensor_prediction_uncertainty.pop(key, None)
